@@ -39,10 +39,13 @@ def generate_for_contract(node, resolver, tok, a, b, expected_names):
     bounds / expansion-time arguments see it); the enclosing scope is current again afterwards."""
     scope0 = resolver.current_scope
     n0 = len(resolver.scopes)
+    outer_before = dict(scope0.symbols)
     code = generate_for(node, resolver, {}, tok)
     count = b - a if b > a else 0
     check("names_in_iteration_order", label_names(code) == expected_names)
     check("enclosing_scope_restored", resolver.current_scope is scope0)
+    # the loop variable lives in the iterations' scopes only: nothing is bound in (or leaks into) the enclosing scope, as with the hand-unrolled blocks
+    check("enclosing_scope_bindings_untouched", dict(scope0.symbols) == outer_before)
     new_scopes = resolver.scopes[n0:]
     top = [s for s in new_scopes if s.parent is scope0]
     check("one_scope_per_iteration", len(top) == count)
@@ -66,6 +69,12 @@ def generate_assign_frame_contract(node, resolver, tok, outer_value, value):
     outer = inner.parent
     code = generate_assign(node, resolver, {}, tok)
     check("bound_in_the_current_scope", inner.symbols.get(node.symbol) == value)
+    # a second assignment in the same scope (default, then override; step-wise values) REPLACES the first: the last one written wins
+    code2 = generate_assign(node, resolver, {}, tok)
+    check("reassignment_keeps_the_last_value", inner.symbols.get(node.symbol) == value)
+    inner.add_symbol("again", 1)
+    inner.add_symbol("again", 2)
+    check("add_symbol_replaces", inner.symbols.get("again") == 2)
     check("enclosing_binding_untouched", outer.symbols.get(node.symbol) == outer_value)
     check("nothing_emitted", len(code) == 0)
     check("current_scope_unchanged", resolver.current_scope is inner)
